@@ -303,7 +303,7 @@ def run_replay(prop, path):
     case = data["case"]
     r = st.impl(case)
     f = st.spec(case, r)
-    print("case:", json.dumps(case))
+    print("case:", json.dumps(core.canon(case)))
     print("implementation:", json.dumps(core.canon(r)))
     print("property on implementation:", "holds" if f is None else f)
     if st.checker:
